@@ -150,6 +150,27 @@ def _mine(prefix: bytes, digit: str) -> bytes:
     return body
 
 
+_shared_store_cls = None
+
+
+def shared_store_repo():
+    """A MemoryRepo whose object store hands out the stored Commit objects themselves instead of
+    re-parsing a copy on every lookup (MemoryObjectStore.__getitem__ copies; half of the time
+    of a query went there).  graph.py and walk.py only read commits.  Used for the enumerated
+    cases only; the random histories run on an unmodified MemoryRepo and on disk repositories."""
+    global _shared_store_cls
+    from dulwich.object_store import MemoryObjectStore
+    from dulwich.repo import MemoryRepo
+    if _shared_store_cls is None:
+        class SharedStore(MemoryObjectStore):
+            def __getitem__(self, name):
+                return self._data[self._to_hexsha(name)]
+        _shared_store_cls = SharedStore
+    r = MemoryRepo()
+    r.object_store.__class__ = _shared_store_cls
+    return r
+
+
 class Hist:
     """A history built as real dulwich objects in a MemoryRepo (or any repo passed in)."""
 
@@ -372,6 +393,10 @@ class Expect:
                     return False, rel
                 if len(r) != min(q["max"], len(q["base"])):
                     return False, rel
+            if q["g"] and not q["topo"] and not (q["since"] or q["until"] or q["max"]) and (em == 0 or mono):
+                tss = [self.ts[c - 1] for c in set_of(rel)]
+                if len(set(tss)) == len(tss) and r != q["g"][0]:
+                    return False, rel
             return True, rel
         raise ValueError(k)
 
@@ -438,7 +463,7 @@ def run_dag(task):
         modes = (0, 1) if tied and plan["both_modes"] else ((crc(seed, par, ts) & 1,) if tied else (0,))
         for mode in modes:
             rng = random.Random(crc(seed, par, ts, mode))
-            h = Hist(par, ts, mode)
+            h = Hist(par, ts, mode, repo=shared_store_repo() if plan.get("shared_store", True) else None)
             ex = Expect(n, par, ts, table, clock)
             qs = []
             # --- merge bases
@@ -473,7 +498,8 @@ def run_dag(task):
             for im, em in ie:
                 i, e = set_of(im), set_of(em)
                 qs.append(q_walk(h, i, e))
-                qs.append(q_walk(h, i, e, topo=1))
+                if rng.random() < plan.get("topo_frac", 1.0):
+                    qs.append(q_walk(h, i, e, topo=1))
             for _ in range(plan["n_walkopt"]):
                 im = rng.choice(allsets)
                 em = rng.choice([0, 0] + allsets)
